@@ -109,6 +109,13 @@ def run_ops(rep):
                 Jv = [sum((Jm[o][i] * S.entries(V)[i] for i in range(n_in)), Z) for o in range(len(ye))]
                 expg = [sum((Jm[o][i] * Jv[o] for o in range(len(ye))), Z) for i in range(n_in)]
                 guard(f"make_ggnvp|{name}", lambda: (all(p_ == q_ for p_, q_ in zip(S.entries(make_ggnvp(f)(x)(V)), expg)), "GGN-vector product = J^T J v (g = 1/2 |.|^2)"))
+                # a loss whose Hessian is NOT diagonal: g(y) = (sum y)^3 / 3 + |y|^2 / 2, H_g = 2 (sum y) 1 1^T + I
+                sy = sum(ye, Z)
+                HJv = [sum(((2 * sy + (1 if o == p_ else 0)) * Jv[p_] for p_ in range(len(ye))), Z) for o in range(len(ye))]
+                expg2 = [sum((Jm[o][i] * HJv[o] for o in range(len(ye))), Z) for i in range(n_in)]
+                gloss = lambda y_: anp.sum(y_) ** 3 / 3 + anp.sum(y_ * y_) / 2
+                guard(f"make_ggnvp coupled g|{name}", lambda: (all(p_ == q_ for p_, q_ in zip(S.entries(make_ggnvp(f, gloss)(x)(V)), expg2)),
+                                                             "GGN-vector product = J^T H_g(f(x)) J v for a loss with a full (non-diagonal) Hessian"))
         except Exception as e:
             out.append((f"ops|{name}", False, f"raised {type(e).__name__}: {str(e)[:120]}"))
     # argnum selection, extra args, kwargs
